@@ -15,8 +15,13 @@ Inductive jval :=
 
 (* the part of a body schema that decoding looks at: attribute names, AnyAttribute, block types with
    their number of labels, body and label-dependent bodies *)
+(* what selects a dependent body: the value of a label, or of an attribute (as written, or its default) *)
+Inductive jcond :=
+| JCLabel (idx : nat) (value : string)
+| JCAttr (name : string) (value : string) (default : option string).
+
 Inductive jschema := JSch (attrs : list string) (any : bool) (blocks : list (string * jblock))
-with jblock := JBlk (nlabels : nat) (body : jschema) (dep : list ((nat * string) * jschema)).
+with jblock := JBlk (nlabels : nat) (body : jschema) (dep : list (jcond * jschema)).
 
 Definition js_attrs s := match s with JSch a _ _ => a end.
 Definition js_any s := match s with JSch _ a _ => a end.
@@ -54,12 +59,28 @@ Fixpoint unpack (n : nat) (v : jval) (used : list string) : list (list string * 
 Definition jmerge (a b : jschema) : jschema :=
   JSch (List.app (js_attrs a) (js_attrs b)) (js_any a || js_any b) (List.app (js_blocks b) (js_blocks a)).
 
-Definition label_is (labels : list string) (c : nat * string) : bool :=
-  match nth_error labels (fst c) with Some l => String.eqb l (snd c) | None => false end.
+(* the value of a key attribute in a JSON body: a plain string as written (strings are not evaluated
+   as templates for this purpose), the default when the attribute is not written *)
+Definition key_attr_value (bodyv : jval) (name : string) (default : option string) : option string :=
+  match bodyv with
+  | JObj m => match alookup name m with
+              | Some (JStr s) => Some s
+              | Some _ => None
+              | None => default
+              end
+  | _ => default
+  end.
 
-(* the body schema of one block instance: its body merged with the dependent body selected by a label *)
-Definition inner_schema (b : jblock) (labels : list string) : jschema :=
-  match find (fun d => label_is labels (fst d)) (jb_dep b) with
+Definition cond_holds (labels : list string) (bodyv : jval) (c : jcond) : bool :=
+  match c with
+  | JCLabel i v => match nth_error labels i with Some l => String.eqb l v | None => false end
+  | JCAttr n v d => match key_attr_value bodyv n d with Some s => String.eqb s v | None => false end
+  end.
+
+(* the body schema of one block instance: its body merged with the dependent body selected by a
+   label or by a key attribute of the instance's body *)
+Definition inner_schema (b : jblock) (labels : list string) (bodyv : jval) : jschema :=
+  match find (fun d => cond_holds labels bodyv (fst d)) (jb_dep b) with
   | Some d => jmerge (jb_body b) (snd d)
   | None => jb_body b
   end.
@@ -97,7 +118,7 @@ Fixpoint jdecode (fuel : nat) (sch : jschema) (v : jval) : option content :=
                match alookup (fst m) (js_blocks sch) with
                | None => Some []
                | Some blk =>
-                   map_opt (fun i => match jdecode f (inner_schema blk (fst i)) (snd i) with
+                   map_opt (fun i => match jdecode f (inner_schema blk (fst i) (snd i)) (snd i) with
                                      | Some c => Some (fst m, (fst i, c))
                                      | None => None
                                      end)
@@ -151,7 +172,7 @@ Fixpoint conforms (sch : jschema) (d : dbody) : bool :=
                         match alookup (fst g) (js_blocks sch) with
                         | None => false
                         | Some blk => forallb (fun i => Nat.eqb (length (fst i)) (jb_nlabels blk) &&
-                                                        conforms (inner_schema blk (fst i)) (snd i)) (snd g)
+                                                        conforms (inner_schema blk (fst i) (to_json (snd i))) (snd i)) (snd g)
                         end) groups
   end.
 
@@ -243,12 +264,17 @@ Fixpoint jschema_of_sexp (x : sexp) : option jschema :=
                | [] => Some []
                | SList [SStr t; n; body; SList deps] :: r =>
                    match as_Z n, jschema_of_sexp body,
-                         (fix gd (l : list sexp) : option (list ((nat * string) * jschema)) :=
+                         (fix gd (l : list sexp) : option (list (jcond * jschema)) :=
                             match l with
                             | [] => Some []
                             | SList [i; SStr v; d] :: r =>
                                 match as_Z i, jschema_of_sexp d, gd r with
-                                | Some i, Some d, Some r => Some (((Z.to_nat i, v), d) :: r)
+                                | Some i, Some d, Some r => Some ((JCLabel (Z.to_nat i) v, d) :: r)
+                                | _, _, _ => None
+                                end
+                            | SList [SAtom "attr"; SStr n; SStr v; df; d] :: r =>
+                                match opt_of_sexp as_str df, jschema_of_sexp d, gd r with
+                                | Some df, Some d, Some r => Some ((JCAttr n v df, d) :: r)
                                 | _, _, _ => None
                                 end
                             | _ => None
